@@ -9,7 +9,7 @@ FAMILIES = {
 PROPS = {
     "C12": dict(
         family="num",
-        theorems=T("C12", "from_uint_canonical", "from_int_canonical", "canonical_meaning", "buffer_fits", "format_canonical", "stream_canonical",
+        theorems=T("C12", "translated_digit_generator_is_model", "from_uint_canonical", "from_int_canonical", "canonical_meaning", "buffer_fits", "format_canonical", "stream_canonical",
                    "printers_agree", "no_ub", "roundtrip", "flags_meaning", "consumed_within", "strtol_eq_parseSpec", "parse_meaning", "narrowing", "pinned_format_ub_witness", "pinned_stream_ub_witness"),
         rule="exhaustive: all 65,536 short and unsigned short values x 35 bases x both letter cases through from_int/from_uint -> to_short/to_ushort, and through "
              "ST::format (bases 10, 16 both cases, 8, 2) and string_stream (base 10), as 4096-value digest blocks; 8/32/64-bit types: 0, +-1, min, max, b^k, b^k+-1 for every "
